@@ -164,7 +164,7 @@ fn main() {
                 ctx.exhaustive.insert(format!("all pairs of functions, n={}", n), true);
             }
         }
-        let total = (if thorough { 640 } else { 8 }) * if n >= 11 { 1 } else { 2 };
+        let total = (if thorough { 640 } else { 24 }) * if n >= 11 { 1 } else { 2 };
         let reps = std::cmp::max(1, total / chunks);
         for _rep in 0..reps {
             // random lists
